@@ -264,6 +264,9 @@ def vectors(ctx, d, tier):
     b = [F(0)] * d
     b[r.randrange(d)] = F(1)
     vs[1] = ("basis", b)
+    t70 = [F(r.randint(-5, 5), 2 ** 70) for _ in range(d)]
+    t70[r.randrange(d)] = F(3, 2 ** 70)
+    vs.append(("tiny70", t70))          # norm far below machine epsilon, exactly representable: v/|v| is still a unit vector
     if tier != "quick":
         vs.append(("large", [F(r.randint(-3, 3)) * 2 ** 20 for _ in range(d)]))
         vs.append(("tiny", [F(r.randint(-5, 5), 2 ** 20) for _ in range(d)]))
